@@ -284,6 +284,10 @@ def main():
     db_parse = parse_table(mod, "DbMethod")
     root_disp, root_pre, root_sig = dispatch_table(mod, "dispatch_root", "RootMethod")
     db_disp, db_pre, db_sig = dispatch_table(mod, "dispatch_db", "DbMethod")
+    # the order of match arms carries no meaning: emit the tables sorted, so that a pure
+    # reordering of arms (or of enum variants) does not change the generated file
+    root_parse.sort(); db_parse.sort(); root_disp.sort(); db_disp.sort()
+    root_variants.sort(); db_variants.sort()
 
     # dispatch_db resolves the database from the path name before the match
     gm = re.findall(r"let\s+db\s*=\s*state\s*\.\s*get_db\s*\(\s*(\w+)\s*\)\s*\.\s*await\s*\?", db_pre)
@@ -348,8 +352,20 @@ def main():
         if not ms:
             die(f"execute_rpc: marker {k} not found")
         pos[k] = ms[0].start()
-    if not re.search(r"let\s+principal\s*=\s*state\s*\.\s*authorize\s*\(\s*scope\s*,\s*bearer_token\s*\(\s*headers\s*\)\s*\)\s*\?", ebody):
-        die("execute_rpc: `let principal = state.authorize(scope, bearer_token(headers))?` not found")
+    pm_ = re.findall(r"let\s+(\w+)\s*=\s*state\s*\.\s*authorize\s*\(\s*scope\s*,\s*bearer_token\s*\(\s*headers\s*\)\s*\)\s*\?", ebody)
+    if len(pm_) != 1:
+        die("execute_rpc: exactly one `let <p> = state.authorize(scope, bearer_token(headers))?` expected")
+    pvar_ = pm_[0]
+    # the principal handed to every `dispatch(...)` call must be the one `authorize` returned
+    dcalls = list(re.finditer(r"\bdispatch\s*\(", ebody))
+    if not dcalls:
+        die("execute_rpc: no dispatch(...) call")
+    exec_forwards = True
+    for dc in dcalls:
+        dend_ = match_close(ebody, dc.end() - 1, "(", ")")
+        dargs_ = [a.strip() for a in split_top(ebody[dc.end():dend_])]
+        if len(dargs_) != 5 or dargs_[4] != pvar_:
+            exec_forwards = False
     exec_order = [k for k, _ in sorted(pos.items(), key=lambda kv: kv[1])]
     im = unique(r"\bif\s+effect\s*==\s*MethodEffect::(\w+)\s*\{", ebody, "`if effect == MethodEffect::X` in execute_rpc")
     then_end = match_close(ebody, im.end() - 1)
@@ -488,6 +504,9 @@ def main():
     w(f"def dbLookupArg : String := {lean_str(db_lookup_arg)}")
     w(f"def dispatchRootTakesPrincipal : Bool := {lean_bool(root_takes_principal)}")
     w(f"def dispatchDbTakesPrincipal : Bool := {lean_bool(db_takes_principal)}")
+    w("")
+    w("/-- every `dispatch(...)` call in `execute_rpc` passes the principal returned by `state.authorize` -/")
+    w(f"def executeForwardsAuthorizedPrincipal : Bool := {lean_bool(exec_forwards)}")
     w("")
     w("/-- First-occurrence order of the four stages inside `execute_rpc`. -/")
     lst("executeOrder", "String", [lean_str(x) for x in exec_order])
